@@ -8,9 +8,55 @@ predicate (real code): each axiom evaluated on generated samples / pairs / mixtu
 rounding-aware tolerance.
 """
 import math
+import copy
 from fractions import Fraction as F
 from common import *  # noqa
 from risk_common import *  # noqa
+
+
+MODULES = {"es": "ExpectedShortfall", "erm": "EntropicRiskMeasure", "qcvar": "QuadraticCVaR", "eloss": "EntropicLoss", "iso": "IsoelasticLoss"}
+
+
+def make_crit(nn, fnl, which, par, form, copied=False):
+    """criterion `which` with parameter `par` as a callable (input, target=None) -> tensor that reduces the path dimension 0.
+    form 'module': the loss module (optionally a copy.deepcopy of it); 'functional': pfhedge.nn.functional with dim=0 where the
+    function has a dim; 'dimnone': the functional form with its default dim (1-D samples only); 'lastdim': the functional form on
+    the tensor with the paths moved to the last dimension and dim=-1.  Without a target the functional forms receive the caller's
+    tensor object itself (not a temporary)."""
+    if form == "module":
+        mod = getattr(nn, MODULES[which])(par)
+        if copied:
+            mod = copy.deepcopy(mod)
+        return lambda t, target=None: mod(t) if target is None else mod(t, target)
+
+    def f(t, target=None):
+        v = t if target is None else t - target
+        kw = {}
+        if form == "functional" and which in ("es", "qcvar"):
+            kw = {"dim": 0}
+        elif form == "lastdim":
+            v, kw = v.movedim(0, -1).contiguous(), {"dim": -1}
+        if which == "es":
+            return fnl.expected_shortfall(v, par, **kw)
+        if which == "qcvar":
+            return fnl.quadratic_cvar(v, par, **kw)
+        if which == "erm":
+            return fnl.entropic_risk_measure(v, par)
+        if which == "eloss":
+            return -fnl.exp_utility(v, par).mean(0)
+        return -fnl.isoelastic_utility(v, par).mean(0)
+    return f
+
+
+def qprec(col):
+    """the precision quadratic_cvar derives from the bracket of a column (1e-6 * 10^int(log10(max - min + 2e-8)))"""
+    spread = float(max(col) - min(col)) + 2e-8
+    return 1e-6 * 10 ** int(math.log10(spread))
+
+
+def is_narrow(col, lam):
+    """known finding K3: the bracket of the centred sample misses the root"""
+    return float(max(col)) - float(sum(col) / len(col)) < 1 / (2 * lam)
 
 
 def check(ctx):
@@ -19,6 +65,9 @@ def check(ctx):
     import pfhedge.nn.functional as fnl
     g = ctx.gen
     ctx.lean_gate()
+    import warnings
+    # quadratic_cvar derives its precision with int(math.log10(tensor)); on samples that require grad torch warns about it
+    warnings.filterwarnings("ignore", message="Converting a tensor with requires_grad=True to a scalar")
     n = 3000 if ctx.tier == "quick" else 12000
     reqs, metas = [], []
     dt = torch.float64
@@ -171,20 +220,279 @@ def check(ctx):
                          case | {"column": j}, key="quadratic_cvar:bracket-misses-root" if narrow else f"{which}:batch-column",
                          detail={"in_batch": whole[j], "alone": alone[j]})
                 break
+    # ---- boundary parameters x trailing shapes x forms: every admissible parameter (p = 1, p = 1/N, a and lam at the ends of their
+    # ranges) on samples of shape (N, *) whose columns sit on different cash levels, through the module (with and without a scalar /
+    # per-column target, also a deep copy of the module) and through the functional forms (dim=0, paths in the last dimension).
+    # Axioms, column by column: the output has the trailing shape, a column's risk is the risk of that column alone, lies within
+    # its bounds, a per-column cash amount lowers each column's risk by exactly that amount, ES does not increase up to p = 1
+    def T1(col):
+        return torch.tensor([float(v) for v in col], dtype=dt)
+
+    def vals(t):
+        return [float(v) for v in t.detach().reshape(-1).tolist()]
+    for it in range(150 if ctx.tier == "quick" else 1500):
+        which = g.choice(["es", "es", "erm", "qcvar", "eloss", "iso"])
+        N = g.small((1, 2, 3, 4, 5, 7, 8, 10, 16))
+        trailing = g.choice([(2,), (3,), (4,), (1,), (2, 2), (3, 1), (1, 2), (2, 3)])
+        M = 1
+        for t_ in trailing:
+            M *= t_
+        smp = gen_sample(g, N=N, M=M, kind="mixed" if which in ("es", "erm", "qcvar") else g.choice(["generic", "ties"]))
+        cols = smp["cols"]
+        if which == "iso":
+            cols = [[abs(v) + F(1, 8) for v in col] for col in cols]
+        form = g.choice(["module", "module", "functional"] + (["lastdim"] if which in ("es", "qcvar") else []))
+        copied = form == "module" and g.chance(0.3)
+        tk = g.choice(["none", "scalar", "column", "column"])
+        tlo, thi = (-1, 0) if which == "iso" else (-2, 2)
+        if tk == "scalar":
+            tq = [g.dy(tlo, thi, 2)] * M
+        elif tk == "column":
+            tq = [g.dy(tlo, thi, 2) for _ in range(M)]
+        else:
+            tq = [F(0)] * M
+        eff = [[v - tq[m] for v in cols[m]] for m in range(M)]          # the samples whose risk is asked for
+        scale = max(1.0, max(abs(float(v)) for col in cols + eff for v in col))
+        if which == "es":
+            par = g.choice([1.0, 1.0, 1, 1 / N, g.randint(1, N) / N, 0.99, 0.5, 0.1, 0.33])
+        elif which == "erm":
+            par = g.choice([1 / 64, 0.25, 1.0, 8.0])
+        elif which == "qcvar":
+            par = g.choice([1.0, 2.0, 10.0, 64.0])
+        elif which == "eloss":
+            par = g.choice([0.25, 1.0, 2.0])
+        else:
+            par = g.choice([1.0, 0.5, 0.25])
+        x = torch.tensor([[float(cols[m][i]) for m in range(M)] for i in range(N)], dtype=dt).reshape((N,) + trailing)
+        target = None if tk == "none" else (float(tq[0]) if tk == "scalar" else T1(tq).reshape(trailing))
+        case = {"which": which + "_shape", "N": N, "trailing": list(trailing), "form": form, "copied": copied, "par": repr(par),
+                "target": tk, "targets": enc_rat(tq), "cols": enc_rat(cols)}
+        ctx.case(case, True, tag=f"{which}_shape:{form}")
+        ctx.stats[f"shape-target={tk}"] += 1
+        ctx.traces += 1
+        crit = make_crit(nn, fnl, which, par, form, copied)
+        try:
+            with torch.no_grad():
+                plain_t = crit(x)
+                whole_t = plain_t if target is None else crit(x, target)
+                alone = [float(make_crit(nn, fnl, which, par, "module")(T1(col))) for col in eff]
+        except Exception as e:  # noqa
+            ctx.fail("a criterion raised on a valid sample with trailing dimensions", case, key=f"{which}:shape:error", detail=repr(e)[:300])
+            continue
+        if tuple(plain_t.shape) != trailing or tuple(whole_t.shape) != trailing:
+            ctx.fail("the risk of a sample of shape (N, *) does not have the trailing shape (*): the columns are not measured one by one",
+                     case, key=f"{which}:shape:output-shape", detail={"shape": list(whole_t.shape), "shape without target": list(plain_t.shape)})
+            continue
+        plain, whole = vals(plain_t), vals(whole_t)
+        tol = 1e-9 * scale
+        qtol, narrow = tol, False
+        if which == "qcvar":
+            qtol = tol + par * (10 * max(qprec(col) for col in cols + eff)) ** 2
+            narrow = any(is_narrow(col, par) for col in cols + eff)
+        kn = "quadratic_cvar:bracket-misses-root"
+        for j in range(M):
+            col = eff[j]
+            tolb = 1e-9 * max(1.0, abs(alone[j])) + (qtol - tol)
+            if not (abs(whole[j] - alone[j]) <= tolb) and not (whole[j] == alone[j]):
+                ctx.fail("the risk of one column of a sample of shape (N, *) differs from the risk of that column alone",
+                         case | {"column": j}, key=kn if narrow else f"{which}:shape:column", detail={"in_batch": whole[j], "alone": alone[j]})
+                break
+            if which in ("es", "erm", "qcvar"):
+                low = F(1, 4) / F(par) if which == "qcvar" else 0
+                if not (-float(max(col) + low) - qtol <= whole[j] <= -float(min(col) + low) + qtol) or \
+                        (which != "qcvar" and whole[j] < -float(sum(col) / N) - tol):
+                    ctx.fail("the risk of one column of a sample of shape (N, *) is outside [-max, -min] of that column or below minus its mean"
+                             " (lowered by 1/(4 lam) for quadratic CVaR)", case | {"column": j},
+                             key=kn if narrow else f"{which}:shape:bounds", detail={"risk": whole[j]})
+                    break
+                if abs(whole[j] - (plain[j] + float(tq[j]))) > qtol:
+                    ctx.fail("cash invariance fails column by column: a per-column cash amount (the target) does not lower each column's risk by exactly that amount",
+                             case | {"column": j}, key=kn if narrow else f"{which}:shape:cash", detail={"with target": whole[j], "without": plain[j]})
+                    break
+        else:
+            if which == "es":
+                p2 = g.choice([1.0, 1.0, 0.99, min(1.0, float(par) + 0.2)])
+                if p2 >= par:
+                    with torch.no_grad():
+                        r2 = vals(make_crit(nn, fnl, "es", p2, form)(x, target))
+                    if len(r2) != M or any(r2[j] > whole[j] + tol for j in range(M)):
+                        ctx.fail("expected shortfall of a column increases with the quantile level (up to p = 1)", case | {"p2": p2},
+                                 key="es:shape:level", detail={"p": whole, "p2": r2})
+            elif which == "erm":
+                a2 = par * g.choice([1.5, 2.0, 8.0])
+                with torch.no_grad():
+                    r2 = vals(make_crit(nn, fnl, "erm", a2, form)(x, target))
+                if len(r2) != M or any(r2[j] < whole[j] - tol for j in range(M)):
+                    ctx.fail("entropic risk of a column decreases when the risk aversion increases", case | {"a2": a2},
+                             key="erm:shape:risk-aversion", detail={"a": whole, "a2": r2})
+        if which == "es":
+            pn = F(float(par)) * N
+            if not (abs(pn - round(pn)) <= F(1, 10 ** 9) and pn != round(pn)):
+                reqs.append({"op": "es", "k": math.ceil(par * N), "cols": enc_rat(eff)})
+                metas.append(("es", case, whole))
+        elif which == "erm":
+            reqs.append({"op": "erm", "a": float_bits(par), "cols": enc_flt([[float(v) for v in col] for col in eff])})
+            metas.append(("erm", case, whole))
+    # ---- the caller's tensors are used again after an evaluation: rho(X) is computed, then X + c, a better position X + D and a
+    # mixture t X + (1 - t) Z are built FROM THE SAME tensor objects (the ordinary way of checking an axiom), X is evaluated again,
+    # and the bounds are taken from the tensor as it is after the evaluation.  Module (also deep-copied, with a tensor target that is
+    # reused as well) and functional forms (dim=0 and the default dim), samples that require grad (leaf tensors) included
+    for it in range(240 if ctx.tier == "quick" else 2400):
+        which = g.choice(["es", "erm", "qcvar", "qcvar", "eloss", "iso"])
+        N = g.small((1, 2, 3, 4, 5, 7, 8, 10, 16, 25))
+        M = g.choice([1, 1, 2])
+        kind = g.choice(["generic", "ties", "heavy", "mixed", "generic_shifted", "wide"]) if which not in ("eloss", "iso") else g.choice(["generic", "ties"])
+        xs = gen_sample(g, N=N, M=M, kind=kind)["cols"]
+        zs = gen_sample(g, N=N, M=M, kind=kind)["cols"]
+        if which == "iso":
+            xs = [[abs(v) + F(1, 8) for v in col] for col in xs]
+            zs = [[abs(v) + F(1, 8) for v in col] for col in zs]
+        form = g.choice(["module", "module_target", "functional", "functional"] + (["dimnone"] if (M == 1 and which in ("es", "qcvar")) else []))
+        copied = form.startswith("module") and g.chance(0.3)
+        grad = g.chance(0.2)
+        if form == "module_target":
+            thi = 1 if which != "iso" else 0          # isoelastic utility needs input - target > 0
+            tq = [[g.dy(-1, thi, 2) for _ in range(N)] for _ in range(M)]
+        else:
+            tq = [[F(0)] * N for _ in range(M)]
+        ds = [[(g.dy(0, 1, 3) if g.chance(0.6) else F(0)) for _ in range(N)] for _ in range(M)]
+        c = g.dy(-2, 2, 2)
+        lam_t = g.choice([F(1, 2), F(1, 4), F(3, 4), F(0), F(1)])
+        xe = [[a_ - b_ for a_, b_ in zip(xs[m], tq[m])] for m in range(M)]
+        ze = [[a_ - b_ for a_, b_ in zip(zs[m], tq[m])] for m in range(M)]
+        ye = [[a_ + b_ for a_, b_ in zip(xe[m], ds[m])] for m in range(M)]
+        me = [[lam_t * a_ + (1 - lam_t) * b_ for a_, b_ in zip(xe[m], ze[m])] for m in range(M)]
+        scale = max(1.0, max(abs(float(v)) for col in xs + zs + xe + ze for v in col))
+        if which == "es":
+            par = g.choice([0.1, 0.25, 0.5, 0.3, 1.0, 1 / N, g.randint(1, N) / N, 0.33])
+        elif which == "erm":
+            par = g.choice([0.25, 1.0, 2.0, 1 / 64, 8.0])
+        elif which == "qcvar":
+            par = g.choice([1.0, 2.0, 10.0, 64.0])
+        elif which == "eloss":
+            par = g.choice([0.25, 1.0, 2.0])
+        else:
+            par = g.choice([1.0, 0.5, 0.25])
+
+        def T2(cs):
+            t = torch.tensor([[float(cs[m][i]) for m in range(M)] for i in range(N)], dtype=dt)
+            return t[:, 0].contiguous() if (M == 1 and shape1) else t
+        shape1 = M == 1 and (form == "dimnone" or g.chance(0.7))
+        X, Z, D = T2(xs), T2(zs), T2(ds)
+        TG = T2(tq) if form == "module_target" else None
+        if grad:
+            X.requires_grad_(True)
+        case = {"which": which + "_reuse", "N": N, "M": M, "kind": kind, "form": form, "copied": copied, "requires_grad": grad, "par": repr(par),
+                "shape": list(X.shape), "x": enc_rat(xs), "z": enc_rat(zs), "d": enc_rat(ds), "target": enc_rat(tq) if TG is not None else None,
+                "c": rat_str(c), "t": rat_str(lam_t)}
+        ctx.case(case, nontrivial=(N >= 2), tag=f"{which}_reuse:{form}")
+        ctx.traces += 1
+        crit = make_crit(nn, fnl, which, par, "module" if form.startswith("module") else form, copied)
+
+        def rho(t, f=None):
+            return vals((f or crit)(t, TG))
+        tol = 1e-9 * scale
+        qtol, narrow = tol, False
+        if which == "qcvar":
+            xc = [[v + c for v in col] for col in xe]
+            qtol = tol + par * (10 * max(qprec(col) for col in xe + ze + ye + me + xc)) ** 2
+            narrow = any(is_narrow(col, par) for col in xe + ze + ye + me)
+        kn = "quadratic_cvar:bracket-misses-root"
+        ft = float(lam_t)
+
+        def bad(what, axiom, **d):
+            ctx.fail(what + " when the same tensor objects are used again after an evaluation", case,
+                     key=kn if narrow else f"{which}:reuse:{axiom}", detail=d)
+        try:
+            r1 = rho(X)
+            r2 = rho(X)
+            live = X.detach() if TG is None else X.detach() - TG
+            live = live.reshape(N, M)
+            hi, lo, mean = vals(live.amax(0)), vals(live.amin(0)), vals(live.mean(0))
+            rc = rho(X + float(c)) if which in ("es", "erm", "qcvar") else None
+            ry = rho(X + D)
+            rz = rho(Z)
+            rm = rho(ft * X + (1 - ft) * Z)
+            r3 = rho(X)
+            extra = None
+            if which == "es":
+                a_ = g.choice([F(1, 2), F(2), F(3)])
+                p2 = min(1.0, par + g.choice([0.05, 0.2, 0.5]))
+                extra = (float(a_), rho(float(a_) * X) if TG is None else None, p2, rho(X, make_crit(nn, fnl, "es", p2, "module" if form.startswith("module") else form)))
+            elif which == "erm":
+                a2 = par * g.choice([1.5, 2.0, 10.0])
+                extra = (a2, rho(X, make_crit(nn, fnl, "erm", a2, "module" if form.startswith("module") else form)))
+        except Exception as e:  # noqa
+            ctx.fail("a criterion raised when the sample tensor (a leaf that requires grad / a tensor used before) was evaluated", case,
+                     key=f"{which}:reuse:error", detail=repr(e)[:300])
+            continue
+        if any(len(r) != M for r in (r1, r2, ry, rz, rm, r3)):
+            ctx.fail("the risk of a sample of shape (N, M) does not have M entries", case, key=f"{which}:reuse:output-shape")
+            continue
+        rel = lambda v: 1e-9 * max(abs(v), 1e-300) if which == "eloss" else (1e-9 * max(abs(v), 1.0) if which == "iso" else qtol)
+        for j in range(M):
+            if abs(r2[j] - r1[j]) > rel(r1[j]) or abs(r3[j] - r1[j]) > rel(r1[j]):
+                bad("the risk of a sample changes between evaluations of the same tensor", "repeat", first=r1[j], second=r2[j], last=r3[j])
+                break
+            if which in ("es", "erm", "qcvar"):
+                low = 1 / (4 * par) if which == "qcvar" else 0.0
+                if not (-hi[j] - low - qtol <= r1[j] <= -lo[j] - low + qtol) or (which != "qcvar" and r1[j] < -mean[j] - tol):
+                    bad("the risk lies outside [-max, -min] (or below minus the mean) of the sample as the tensor holds it after the evaluation",
+                        "bounds", risk=r1[j], max=hi[j], min=lo[j], mean=mean[j])
+                    break
+                if abs(rc[j] - (r1[j] - float(c))) > qtol:
+                    bad("cash invariance fails", "cash", rx=r1[j], rc=rc[j])
+                    break
+                if ry[j] > r1[j] + qtol:
+                    bad("monotonicity fails: a pointwise better P&L has higher risk", "monotone", rx=r1[j], ry=ry[j])
+                    break
+                if rm[j] > ft * r1[j] + (1 - ft) * rz[j] + qtol:
+                    bad("convexity under mixing fails", "convex", rx=r1[j], rz=rz[j], rmix=rm[j], t=ft)
+                    break
+            else:
+                if ry[j] > r1[j] * (1 + 1e-12) + 1e-300 + (rel(r1[j]) if which == "iso" else 0.0):
+                    bad("monotonicity of the expected-utility loss fails", "monotone", rx=r1[j], ry=ry[j])
+                    break
+                if rm[j] > ft * r1[j] + (1 - ft) * rz[j] + max(rel(r1[j]), rel(rz[j])):
+                    bad("convexity of the expected-utility loss fails", "convex", rx=r1[j], rz=rz[j], rmix=rm[j], t=ft)
+                    break
+            if which == "es":
+                if extra[1] is not None and abs(extra[1][j] - extra[0] * r1[j]) > tol * max(1, extra[0]):
+                    bad("positive homogeneity of expected shortfall fails", "homogeneous", rx=r1[j], a=extra[0], rax=extra[1][j])
+                    break
+                if extra[3][j] > r1[j] + tol:
+                    bad("expected shortfall increases with its quantile level", "level", rx=r1[j], p2=extra[2], rp2=extra[3][j])
+                    break
+            elif which == "erm" and extra[1][j] < r1[j] - tol:
+                bad("entropic risk decreases when the risk aversion increases", "risk-aversion", rx=r1[j], a2=extra[0], ra2=extra[1][j])
+                break
+        # correspondence with the model for the LAST evaluation of the reused tensor
+        if which == "es":
+            pn = F(float(par)) * N
+            if not (abs(pn - round(pn)) <= F(1, 10 ** 9) and pn != round(pn)):
+                reqs.append({"op": "es", "k": math.ceil(par * N), "cols": enc_rat(xe)})
+                metas.append(("es", case, r3))
+        elif which == "erm":
+            reqs.append({"op": "erm", "a": float_bits(par), "cols": enc_flt([[float(v) for v in col] for col in xe])})
+            metas.append(("erm", case, r3))
     try:
         outs = ctx.driver(reqs)
     except DriverBroken as e:
         ctx.ties_broken.append({"kind": "driver", "detail": str(e)[:1500]})
         outs = []
     for (which, case, got), mo in zip(metas, outs):
+        gots = got if isinstance(got, list) else [got]        # one value per column
         if which == "es":
-            mv = float(dec_rat(mo["es"])[0])
-            if not close(got, mv, 1e-13, 1e-15):
-                ctx.disagree("es", case, got, mv)
+            mvs = [float(v) for v in dec_rat(mo["es"])]
+            if len(mvs) != len(gots) or not all(close(gv, mv, 1e-13, 1e-15) for gv, mv in zip(gots, mvs)):
+                ctx.disagree("es", case, got, mvs)
         else:
-            o = mo["erm"][0]
-            if "ok" not in o or not close(got, float_of_bits(o["ok"]), 1e-10, 1e-12):
-                ctx.disagree("erm", case, got, o)
+            os_ = mo["erm"]
+            if len(os_) != len(gots) or not all("ok" in o and close(gv, float_of_bits(o["ok"]), 1e-10, 1e-12) for gv, o in zip(gots, os_)):
+                ctx.disagree("erm", case, got, os_)
     return ctx.finish(
         rule="samples N in {1..33} with ties/constants/heavy tails/scales 2^-20..2^20, a pointwise-better sample, a second sample and mixtures "
-             "t in {0,1/4,1/2,3/4,1}, cash shifts, scalings, levels and risk aversions; non-trivial = N>=2; distinct = sha1 of canonical case")
+             "t in {0,1/4,1/2,3/4,1}, cash shifts, scalings, levels and risk aversions; samples of shape (N, *) with boundary parameters (p = 1, 1/N; a, lam at the ends), "
+             "scalar / per-column targets, module (also deep-copied) and functional forms (dim=0, last dim), column by column; the same tensor "
+             "objects evaluated again and reused to build X + c, X + D and mixtures (module with a reused target, functional dim=0 / default, "
+             "leaf tensors that require grad); non-trivial = N>=2; distinct = sha1 of canonical case")
